@@ -93,7 +93,7 @@ impl Srv {
         let id = u64::from_le_bytes(frame[16..24].try_into().unwrap());
         let q = u64::from_le_bytes(frame[24..32].try_into().unwrap()) as usize;
         let query = String::from_utf8_lossy(&frame[48..48 + q]).to_string();
-        let tag = query.trim_start_matches("/c").parse::<u64>().unwrap_or(999);
+        let tag = if query.starts_with("/n") { 1_000_000 + query.trim_start_matches("/n").parse::<u64>().unwrap_or(0) } else { query.trim_start_matches("/c").parse::<u64>().unwrap_or(999) };
         Some((id, tag))
     }
     fn send(&mut self, bytes: &[u8]) -> bool {
@@ -175,6 +175,7 @@ struct Plan {
     cancel: Vec<usize>,        // callers (1-based) aborted after their request was read (async / ws)
     batch: bool,
     subscribe: bool,           // ws: a notification subscriber exists
+    notifies: usize,           // the client sends this many notifies before its calls: they draw ids from the same counter
     collide: bool,             // async: while all calls are in flight, a forward_message reuses an in-flight id (must be refused, must not disturb the call)
     big_writer: bool,          // one more caller is stuck writing a multi-MiB request when the fault arrives; the socket stays open afterwards
 }
@@ -194,8 +195,10 @@ fn run_plan(kind: Kind, plan: &Plan, rt: &tokio::runtime::Runtime, log: &Arc<Log
         let mut r = StdRng::seed_from_u64(seed);
         let mut srv = Srv::accept(&listener, kind);
         let mut reqs: Vec<(u64, u64)> = vec![];
-        while reqs.len() < plan_s.read {
+        let mut notify_ids: Vec<u64> = vec![];
+        while reqs.len() < plan_s.read || notify_ids.len() < plan_s.notifies {
             match srv.read_req(Duration::from_secs(10)) {
+                Some((id, tag)) if tag >= 1_000_000 => { log_s.push(json!({"ev": "nsent", "id": id})); notify_ids.push(id); }
                 Some((id, tag)) => {
                     log_s.push(json!({"ev": "sent", "c": tag, "id": id}));
                     reqs.push((id, tag));
@@ -235,6 +238,18 @@ fn run_plan(kind: Kind, plan: &Plan, rt: &tokio::runtime::Runtime, log: &Arc<Log
                     srv.send(&f);
                     log.push(json!({"ev": "srv", "kind": "close", "id": 0, "tag": unread}));
                 }
+                "close_frame_open" => {
+                    // a WebSocket Close frame, after which the peer keeps the TCP connection open (half-dead peer)
+                    log.push(json!({"ev": "srv", "kind": "close", "id": 0, "tag": 0}));
+                    if let Srv::Ws(w) = srv { let _ = w.close(None); let _ = w.flush(); }
+                    let t0 = Instant::now();
+                    let mut buf = vec![0u8; 1 << 16];
+                    let _ = srv.stream().set_read_timeout(Some(Duration::from_millis(200)));
+                    let mut raw = srv.stream().try_clone().unwrap();
+                    while t0.elapsed() < Duration::from_secs(7) {
+                        match raw.read(&mut buf) { Ok(0) => break, Ok(_) => {}, Err(e) if e.kind() == std::io::ErrorKind::WouldBlock || e.kind() == std::io::ErrorKind::TimedOut => {}, Err(_) => break }
+                    }
+                }
                 "badlen_open" | "malformed_open" => {
                     // a malformed frame, but the socket stays open and the peer keeps reading (without ever answering)
                     log.push(json!({"ev": "srv", "kind": "malformed", "id": 0, "tag": 0}));
@@ -270,6 +285,8 @@ fn run_plan(kind: Kind, plan: &Plan, rt: &tokio::runtime::Runtime, log: &Arc<Log
                     match *jk {
                         "unknown" => { log_s.push(json!({"ev": "srv", "kind": "resp", "id": 777_000 + pos as u64, "tag": 99})); srv.send(&resp_frame(777_000 + pos as u64, 99)); }
                         "dup" => if let Some((id, _)) = answered.last().copied() { log_s.push(json!({"ev": "srv", "kind": "resp", "id": id, "tag": 99})); srv.send(&resp_frame(id, 99)); },
+                        // a response carrying the id of one of the client's own notifies: nobody waits for it
+                        "notify_id" => if let Some(id) = notify_ids.first().copied() { log_s.push(json!({"ev": "srv", "kind": "resp", "id": id, "tag": 99})); srv.send(&resp_frame(id, 99)); },
                         "notify" => if let Some((id, _)) = reqs.get(ix).copied() { log_s.push(json!({"ev": "srv", "kind": "notify", "id": id, "tag": 98})); srv.send(&notify_frame(id)); },
                         _ => {}
                     }
@@ -292,6 +309,7 @@ fn run_plan(kind: Kind, plan: &Plan, rt: &tokio::runtime::Runtime, log: &Arc<Log
         }
         // keep serving (the "later" call) until the client goes away
         while let Some((id, tag)) = srv.read_req(Duration::from_millis(400)) {
+            if tag >= 1_000_000 { log_s.push(json!({"ev": "nsent", "id": id})); continue; }
             log_s.push(json!({"ev": "sent", "c": tag, "id": id}));
             log_s.push(json!({"ev": "srv", "kind": "resp", "id": id, "tag": tag}));
             srv.send(&resp_frame(id, tag));
@@ -328,8 +346,18 @@ fn run_plan(kind: Kind, plan: &Plan, rt: &tokio::runtime::Runtime, log: &Arc<Log
             });
         }
     }
+    for k in 0..plan.notifies {
+        let (path, body) = (format!("/n{k}"), json!({"n": k}));
+        let _ = match &client {
+            AnyClient::Sync(c) => c.notify_json(&path, &body),
+            AnyClient::Async(c) => rt.block_on(c.notify_json(&path, &body)),
+            AnyClient::Ws(c) => rt.block_on(c.notify_json(&path, &body)),
+        };
+    }
     let timeout = plan.timeout_ms.map(Duration::from_millis);
-    let watchdog = Duration::from_secs(10);
+    // a peer that sent a Close frame but holds the TCP connection open does so for 7 s here: a call that only returns
+    // when the socket finally closes has, for the caller, blocked for as long as the peer pleased
+    let watchdog = if matches!(plan.fault, Some(("close_frame_open", _))) { Duration::from_secs(4) } else { Duration::from_secs(10) };
     let do_call = |c: u64| -> Box<dyn FnOnce() -> (String, u64, u64, String) + Send> {
         let path = format!("/c{c}");
         let body = json!({"c": c});
@@ -673,7 +701,7 @@ pub fn run(a: &Args) -> i32 {
     let rt = tokio::runtime::Builder::new_multi_thread().worker_threads(4).enable_all().build().unwrap();
     let log = Arc::new(Log { seq: AtomicU64::new(0), ev: Mutex::new(vec![]) });
     let mut plans: Vec<Plan> = vec![];
-    let base = |callers: usize| Plan { callers, read: callers, order: (0..callers).collect(), junk: vec![], fault: None, timeout_ms: None, late: vec![], cancel: vec![], batch: false, subscribe: true, collide: false, big_writer: false };
+    let base = |callers: usize| Plan { callers, read: callers, order: (0..callers).collect(), junk: vec![], fault: None, timeout_ms: None, late: vec![], cancel: vec![], batch: false, subscribe: true, notifies: 0, collide: false, big_writer: false };
     if mode == "c04" {
         // every reply order for n callers, with one junk frame rotating through kinds and positions
         let junk_kinds: Vec<&'static str> = if kind == Kind::Ws { vec!["none", "unknown", "dup", "notify"] } else { vec!["none", "unknown", "dup"] };
@@ -702,6 +730,15 @@ pub fn run(a: &Args) -> i32 {
                 pl.collide = true;
                 plans.push(pl);
             }
+        }
+        // the client's own notifies share the id counter with its calls: ids stay distinct, and a frame answering a
+        // notify's id is nobody's response
+        for (m, k) in [(1usize, 1usize), (3, 2), (4, 3)] {
+            let mut pl = base(m);
+            pl.order.shuffle(&mut rng);
+            pl.notifies = k;
+            pl.junk = vec![(0, "notify_id")];
+            plans.push(pl);
         }
         // batches
         for _ in 0..a.usize("batches", 6) {
@@ -735,6 +772,14 @@ pub fn run(a: &Args) -> i32 {
                 pl.order = vec![];
                 pl.fault = Some((fk, 0));
                 pl.big_writer = true;
+                plans.push(pl);
+            }
+        }
+        if kind == Kind::Ws {
+            for &inflight in &[0usize, 1, 3] {
+                let mut pl = base(inflight);
+                pl.order = vec![];
+                pl.fault = Some(("close_frame_open", 0));
                 plans.push(pl);
             }
         }
